@@ -161,9 +161,18 @@ def op_tableau(root):
     for cname, f in functions(tree):
         if f.name not in ("intg_rk",):
             continue
-        for n in ast.walk(f):
-            if isinstance(n, ast.Constant) and isinstance(n.value, int) and n.value in (2, 6) and not isinstance(getattr(n, "parent", None), ast.Subscript):
-                yield Edit(rel, n, str(n.value + 1), "intg_rk: constant %d -> %d at line %d col %d" % (n.value, n.value + 1, n.lineno, n.col_offset), ["C01", "C03", "C08"])
+        for st in f.body:
+            if isinstance(st, ast.Assign) and isinstance(st.targets[0], ast.Name) and st.targets[0].id[:1] == "k" and st.targets[0].id[1:].isdigit():
+                props = ["C01", "C03"]       # stage definitions: the tableau
+            elif isinstance(st, ast.Return):
+                props = ["C01", "C03", "C08"]  # xf / qf weights
+            elif isinstance(st, ast.Assign):
+                props = ["C08"]              # dense-output coefficients
+            else:
+                continue
+            for n in ast.walk(st):
+                if isinstance(n, ast.Constant) and isinstance(n.value, int) and not isinstance(n.value, bool) and n.value in (2, 4, 6, 24):
+                    yield Edit(rel, n, str(n.value + 1), "intg_rk: constant %d -> %d at line %d col %d" % (n.value, n.value + 1, n.lineno, n.col_offset), props)
 
 
 OPERATORS = [op_drop_invalidation, op_shift_slot_index, op_silence_guard, op_widen_handler, op_placement_flag, op_scale_side, op_clone_alias, op_tableau]
